@@ -59,6 +59,7 @@ class Ctx:
         self.rnd = random.Random("%s-%d" % (prop, seed))
         self.t0 = time.time()
         self.budget_factor = 1.0
+        self.dis_limit = 20         # a run stops collecting after this many model/implementation disagreements; the search lifts it
         self.model = None
         self.build_ok = True
         self.notes = []
@@ -255,6 +256,8 @@ def main(prop, tier, seed, replay=None):
     if (broken or disagreements) and not unexplained(violations):
         # directed search on the real implementation
         try:
+            ctx.dis_limit = 10 ** 9     # the search looks for a failing input on the real code: disagreements must not end it early
+            ctx.t0 = time.time()
             extra = mod.search(ctx, broken, disagreements) if hasattr(mod, "search") else []
         except Exception as ex:
             tb = traceback.format_exc()
